@@ -9,11 +9,15 @@ SPEC = {
          'src': 'harness/pkg/types/ccipocr3/c02_test.go', 'test': 'TestVerif_C02_limit',
          'sinks': {'C02_lim': 'lim_judge'}, 'n': {'quick': 500, 'thorough': 40000}},
         {'pkg': 'commit/merkleroot', 'pkgname': 'merkleroot', 'fakes': True,
-         'src': 'harness/commit/merkleroot/c02_test.go', 'test': 'TestVerif_C02_ranges',
+         'src': ['harness/commit/merkleroot/c02_test.go', 'harness/commit/merkleroot/c02h_test.go'], 'test': 'TestVerif_C02_ranges',
          'sinks': {'C02_rng': 'rng_judge'}, 'n': {'quick': 500, 'thorough': 30000}},
         {'pkg': 'commit/merkleroot', 'pkgname': 'merkleroot', 'fakes': True,
-         'src': 'harness/commit/merkleroot/c02_test.go', 'test': 'TestVerif_C02_roots',
+         'src': ['harness/commit/merkleroot/c02_test.go', 'harness/commit/merkleroot/c02h_test.go'], 'test': 'TestVerif_C02_roots',
          'sinks': {'C02_roots': 'roots_judge'}, 'n': {'quick': 500, 'thorough': 30000}},
+        # one long-lived Processor per history (n = histories of 8..16 rounds; one case per round in each sink)
+        {'pkg': 'commit/merkleroot', 'pkgname': 'merkleroot', 'fakes': True,
+         'src': ['harness/commit/merkleroot/c02_test.go', 'harness/commit/merkleroot/c02h_test.go'], 'test': 'TestVerif_C02_hist',
+         'sinks': {'C02_hist': 'hr_judge', 'C02_hobs': 'ho_judge'}, 'n': {'quick': 90, 'thorough': 1500}},
     ],
     'known': {'2': 'F01b'},
     'rule': 'lim: fixed 19x19x10 boundary grid {0..3,254..258,2^63-1..2^63+1,2^64-258..2^64-255,2^64-3..2^64-1}^2 x '
@@ -28,27 +32,55 @@ SPEC = {
             'chain from complete / honest database reader that holds the interval and its neighbours and answers exactly the range it is asked for / unordered / prefix / suffix / gap / duplicate (extra, replacing) / window shifted up or down / '
             'extra below or above / wrong source chain (one, all) / empty / nil / error / hasher error / one short, '
             'supported-chain set and on-ramp address lookup with failures. '
+            'hist: per history ONE Processor built by NewProcessor (real observerImpl; 4 or 7 oracles, F = 1 or 2; tree size 1,2,3,4,256; '
+            'attempt limit 1,2,3,5; 1 history in 8 with sequence numbers just below 2^64) is driven for 8..16 rounds through Observation and '
+            'Outcome. Previous outcome of a round = JSON round trip of the outcome of the round before, or (1 round in 3 of the histories that vary '
+            'it) an arbitrary decodable outcome: the last one under another type / with a stale, advanced or unrelated carried cursor / fully random '
+            '(every OutcomeType incl. 0, 7, -1; carried cursor, recorded intervals incl. inverted and 300 long, roots, signatures, RMN config, '
+            'attempts 0,1,max-2..max,2^64-1) / type only; 1 round in 7 is lost and the next round starts from the same previous outcome. Votes per '
+            'round: for every chain and independently for on-ramp latest, off-ramp next, fChain, each recorded interval\'s root and the RMN config: '
+            '>= threshold equal votes / threshold-1 / none / two values at threshold; deviating voters each their own value; cursed chains normally '
+            'without off-ramp votes; 1 round in 5 one observation missing, 1 in 25 only two arrive; 1 round in 8 every field voted whatever the state; '
+            'slice order of the observations shuffled. Environment between rounds (histories cycle through: everything at once (6 of 16), or exactly one of '
+            'previous outcome / on-ramp growth and finality lag / off-ramp cursor / source-chain curses, global and destination curse, curse read error / '
+            'supported chains, SupportsDestChain, their errors / known chains and their listing order / home-chain fChain of every chain and its error / '
+            'on-ramp address rebinding, nil address, address error / message reorganisation (same numbers, new ids) / reader modes (unordered, error, gap, '
+            'duplicate, hasher error, one short; NextSeqNum error, one short, one long; expected-next error or 0)). '
             'non-trivial = lim: valid range, n>=1, size within one of n or end within 257 of 2^64; rng: >= 1 chain with something '
-            'pending and n >= 1; roots: >= 1 supported interval with a non-error reader answer; distinct by full input',
+            'pending and n >= 1; roots: >= 1 supported interval with a non-error reader answer; C02_hist: selecting round with consensus and >= 1 chain '
+            'with both numbers agreed, building round with >= 1 agreed root or a retry, waiting round with consensus; C02_hobs: building round with a '
+            'supported interval and a non-error answer, other rounds with a non-empty sequence-number observation; distinct by full input',
     'trusted': ['CCIPReader.MsgsBetweenSeqNums, GetContractAddress, ChainSupport.SupportedChains and the message hasher are oracles '
                 '(scripted fakes); the theorems hold for every answer',
                 'keccak HashInternal / ZeroHash (chainlink-common hashutil) enter the model as an abstract hash h and constant zero; in '
                 'the correspondence the model tree is evaluated through a table of real HashInternal results logged by the harness',
                 'merklemulti.NewTree is modelled from its source (pad odd layer with zero hash, hash neighbours pairwise)',
                 'sort.Slice is modelled as a stable sort; on inputs with equal keys the modelled code rejects the input anyway',
-                'len(msgs) < 2^64'],
+                'len(msgs) < 2^64',
+                'history parts: ChainSupport, HomeChain.GetFChain, GetRmnCurseInfo, NextSeqNum, GetExpectedNextSequenceNumber are oracles whose '
+                'answers change between rounds; the agreed maps of a round are computed by the C01 model (CommitConsensus.get_consensus) from the '
+                'round\'s attributed observations (one observation per oracle id, no chain twice per field, as libocr and ValidateObservation '
+                'guarantee); encoding/json round trip of merkleroot.Outcome between rounds'],
     'assumptions': ['agreed on-ramp / off-ramp maps (the consensus result) are inputs; that they need 2f+1 observers is C01',
                     'MaxMerkleTreeSize >= 1 (plugin constructor replaces 0 by 256)'],
-    'level_text': 'Proof: 16 Coq theorems. Limit = [s, min(e, s+n-1)] for all uint64 ranges and n >= 1 with no wrap-around; selected '
+    'level_text': 'Proof: 22 Coq theorems. Limit = [s, min(e, s+n-1)] for all uint64 ranges and n >= 1 with no wrap-around; selected '
                   'intervals characterised exactly (iff) for all agreed maps, sorted, no chain twice, size <= n, omitted when nothing '
                   'pending, independent of Go map order; a root is reported iff the reader answer holds every sequence number of the '
                   'interval exactly once, the hasher and address lookup succeed, and the root is the tree over the hashes in sequence '
                   'order (independent of the order of the answer). Refutations of the unrepaired Limit (F02) and unrepaired observation '
-                  '(F01); F01b (header source chain unchecked) recorded with _refuted/_except_known. Correspondence: Limit, '
-                  'reportRangesOutcome / Processor.Outcome and ObserveMerkleRoots run against the model every run',
+                  '(F01); F01b (header source chain unchecked) recorded with _refuted/_except_known. History level (induction over the round list of '
+                  'the C03 state-machine model): for every history from every first outcome a selecting round writes exactly report_ranges of its own '
+                  'agreed maps (C02_hist_selection_exact), the same for any two histories (C02_hist_selection_indep: no field of the previous outcome, '
+                  'no earlier round enters), a chain lacking either agreed number in that round gets no interval whatever was carried '
+                  '(C02_hist_selection_characterised); the intervals a building round reads were selected by a round of the same history from its agreed '
+                  'maps (C02_hist_ranges_provenance) and roots are observed only for them, from that round\'s reader answer, address binding and '
+                  'support (C02_hist_observation_roots, C02_hist_roots_for_selected). Correspondence: Limit, reportRangesOutcome / Processor.Outcome and '
+                  'ObserveMerkleRoots run against the model every run; one long-lived Processor per history is judged round by round (Outcome against '
+                  'C01 consensus model o C03 state machine on the current round only; Observation against the observer model on the current environment only)',
     'level_note': 'Trusted: Coq kernel, hand-written model, differential harness. Reader, hasher, address and chain-support answers are '
                   'oracles; keccak is abstract (no collision-freeness is claimed or needed). No axioms.',
     'modelled': 'SeqNumRange.Limit, reportRangesOutcome (ranges and carried off-ramp cursor; the RMN remote config field is part of C03/C05), '
                 'ObserveMerkleRoots, msgsCoverRange, computeMerkleRoot, merklemulti.NewTree/Root; goroutine completion order is '
-                'abstracted (roots compared as a multiset)',
+                'abstracted (roots compared as a multiset); Processor.getObservation, ObserveOffRampNextSeqNums, ObserveLatestOnRampSeqNums, '
+                'ObserveFChain (Model/C02Hist.v); Processor.getOutcome through Model/CommitSM.v composed with Model/CommitConsensus.v',
 }
